@@ -1147,7 +1147,7 @@ func c19Content(e *engine.EngineFacade) ([]kvPair, error) {
 
 // keys that are prefixes and suffixes of each other, binary bytes included
 var c19Keys = []string{"61", "6162", "616263", "62", "6263", "63", "6162636162", "00", "00ff", "ff", "ff00", "6100", "ff6162", "6200", "ffff", "626162"}
-var c19Prefixes = []string{"-", "61", "6162", "616263", "00", "ff", "7a7a", "62", "ffff"}
+var c19Prefixes = []string{"-", "61", "6162", "616263", "00", "ff", "7a7a", "62", "ffff", "00ff", "61ff", "ff00", "6100"}
 var c19Suffixes = []string{"-", "62", "6162", "63", "ff", "00", "6263", "7a"}
 var c19Bounds = []string{"-", "61", "6162", "6163", "62", "00", "0000", "ff", "ffff", "6200", "7a", "6263"}
 
@@ -1352,8 +1352,42 @@ func (g *c19Gen) closeAll() {
 	g.openRW = false
 }
 
+// every prefix, every suffix, a prefix with a limit and a sample of ranges over a table that holds
+// all keys of the pool (some written twice, some deleted), plain and through a read-only handle
+func c19Sweep(w *bufio.Writer, seed int64, r *rand.Rand) {
+	g := &c19Gen{w: w, r: r, nk: len(c19Keys)}
+	fmt.Fprintf(w, "case sweep%d memsize=%d maxmem=1000 msg=default role=none\n", seed, []int{300, 100000000}[r.Intn(2)])
+	for _, k := range c19Keys {
+		g.line("put %s %s 0", k, c19Value(r))
+	}
+	g.line("put 61ff %s 0", c19Value(r))
+	g.line("put 61ff00 %s 0", c19Value(r))
+	g.line("put 00ffff %s 0", c19Value(r))
+	for i := 0; i < 3; i++ {
+		g.line("del %s 0", c19Key(r, g.nk))
+	}
+	g.begin(true)
+	for _, p := range c19Prefixes[1:] {
+		g.line("scan %s - - - 0", p)
+		g.line("tscan $0 %s - - - 0", p)
+		g.line("scan %s - - - %d", p, 1+r.Intn(2))
+	}
+	for _, x := range c19Suffixes[1:] {
+		g.line("scan - %s - - 0", x)
+		g.line("tscan $0 - %s - - 0", x)
+	}
+	for i := 0; i < 12; i++ {
+		a, e := c19Bounds[r.Intn(len(c19Bounds))], c19Bounds[r.Intn(len(c19Bounds))]
+		g.line("scan - - %s %s %s", a, e, c19Limit(r))
+		g.line("tscan $0 - - %s %s %s", a, e, c19Limit(r))
+	}
+	g.closeAll()
+	fmt.Fprintln(w, "end")
+}
+
 func genC19(w *bufio.Writer, seed int64, n int, tier string) {
 	r := rand.New(rand.NewSource(seed*7919 + 19))
+	c19Sweep(w, seed, rand.New(rand.NewSource(seed*31+5)))
 	for ci := 0; ci < n; ci++ {
 		g := &c19Gen{w: w, r: r, nk: 4 + r.Intn(len(c19Keys)-3)}
 		kind := pick(r, 50, 15, 15, 12, 8)
